@@ -313,7 +313,7 @@ def run(ctx):
     # ---- model evaluation --------------------------------------------------------------------
     texts = list(cfg_jobs)
     model_ok = (vlib.COQ / "C01" / "ModelObs.vo").exists()
-    n_compared = n_branching = n_tuplesum = n_noninj = 0
+    n_compared = n_branching = n_tuplesum = n_noninj = n_distinct_branching = 0
     mismatches = 0
     if model_ok and texts:
         per = 60
@@ -334,6 +334,8 @@ def run(ctx):
                 ctx.report("model-eval", "correspondence", "ModelObs.observe could not be evaluated", {"error": str(e)[-1500:]}, found_input=False)
         if vals is not None:
             for t, model in zip(texts, vals):
+                if any(hb and not hb["exit"] and len(hb["variants"]) > 1 for hb in cfg_jobs[t][0][1]["blocks"]):
+                    n_distinct_branching += 1
                 for pid, rec in cfg_jobs[t]:
                     n_compared += 1
                     exp, problems = expected_obs(rec)
@@ -447,11 +449,14 @@ def run(ctx):
          "harness: gen_progs.py, impl_lower.py (recording wrapper around compile_cfg/compile_bb), impl_dfc.py, impl_sort.py, tools/repo_shim.py; hugr-py builder; "
          "selene_hugr_qis_compiler.check_hugr as auxiliary oracle (measure() is avoided: the sandbox's tket-exts gives MeasureFree another signature)"],
         evaluations=n_compared + len(rows) + dfc_cov.get("scripts", 0),
-        distinct_nontrivial=n_branching,
-        rule="non-trivial = a compiled DataflowBlock with more than one successor (branch output construction reached); "
-             "tuple_sum_blocks counts those whose Sum variants carry values (successors need different places)",
+        distinct_nontrivial=n_distinct_branching,
+        rule="cases = checked CFGs of compiled functions (corpus + seeded generated programs), sort rows, DFContainer scripts; "
+             "distinct_nontrivial = number of DISTINCT checked CFGs (by their full row/edge text) that contain a block with more than one "
+             "successor, i.e. reach compile_bb's branch output construction; program_stats.tuple_sum_blocks counts blocks whose Sum variants "
+             "carry values (successors need different places)",
         traces_validated_against_impl=n_compared,
-        programs={"corpus": n_corpus, "generated": n_gen, "status": status, "accepted": accepted,
+        programs=len(progs), disagreements_checked=n_compared + len(rows) + dfc_cov.get("scripts", 0),
+        program_stats={"corpus": n_corpus, "generated": n_gen, "status": status, "accepted": accepted,
                   "cfgs_compared_with_model": n_compared, "distinct_cfgs_evaluated_in_coq": len(texts),
                   "branching_blocks": n_branching, "tuple_sum_blocks": n_tuplesum, "model_mismatches": mismatches,
                   "rows_where_str_is_not_injective_on_ids": n_noninj, "features_in_accepted_programs": feats},
